@@ -193,6 +193,21 @@ impl Payload for Raw {
     }
 }
 
+/// identity payload with a non-empty encoding suffix: header becomes "v4x.local." etc.
+#[derive(Clone, Debug, PartialEq, Eq)]
+pub struct RawX(pub Vec<u8>);
+
+impl Payload for RawX {
+    const SUFFIX: &'static str = "x";
+    fn encode(self, mut writer: impl WriteBytes) -> Result<(), Box<dyn Error + Send + Sync>> {
+        writer.write(&self.0);
+        Ok(())
+    }
+    fn decode(payload: &[u8]) -> Result<Self, Box<dyn Error + Send + Sync>> {
+        Ok(RawX(payload.to_vec()))
+    }
+}
+
 // ---- key helpers -----------------------------------------------------------------------------
 pub fn key_from_bytes<V: HasKey<K>, K: KeyType>(b: &[u8]) -> Result<Key<V, K>, PasetoError> {
     KeyText::<V, K>::from_raw_bytes(b).try_into()
@@ -305,6 +320,31 @@ impl<B: Backend> KeyPair<B> {
             KeyPair::Public(_, pk) => {
                 let t: SignedToken<B, Raw, Vec<u8>> = token.parse()?;
                 let u = t.verify_with_aad(pk, aad, &nv)?;
+                Ok((u.claims.0, u.footer))
+            }
+        }
+    }
+    /// the same three operations for the suffixed payload type `RawX` (header "vNx.purpose.")
+    pub fn header_x(&self) -> String {
+        format!("v{}x.{}.", B::VER, self.purpose().name())
+    }
+    pub fn seal_x(&self, nonce: Option<&[u8]>, msg: &[u8], footer: &[u8], aad: &[u8]) -> Result<String, PasetoError> {
+        match (self, nonce) {
+            (KeyPair::Local(k), Some(n)) => UnencryptedToken::<B, RawX>::new(RawX(msg.to_vec())).with_footer(footer.to_vec()).dangerous_seal_with_nonce(k, aad, n.to_vec()).map(|t| t.to_string()),
+            (KeyPair::Local(k), None) => UnencryptedToken::<B, RawX>::new(RawX(msg.to_vec())).with_footer(footer.to_vec()).encrypt_with_aad(k, aad).map(|t| t.to_string()),
+            (KeyPair::Public(sk, _), _) => UnsignedToken::<B, RawX>::new(RawX(msg.to_vec())).with_footer(footer.to_vec()).sign_with_aad(sk, aad).map(|t| t.to_string()),
+        }
+    }
+    pub fn open_x(&self, token: &str, aad: &[u8]) -> Result<(Vec<u8>, Vec<u8>), PasetoError> {
+        match self {
+            KeyPair::Local(k) => {
+                let t: EncryptedToken<B, RawX, Vec<u8>> = token.parse()?;
+                let u = t.decrypt_with_aad(k, aad, &NoValidation::dangerous_no_validation())?;
+                Ok((u.claims.0, u.footer))
+            }
+            KeyPair::Public(_, pk) => {
+                let t: SignedToken<B, RawX, Vec<u8>> = token.parse()?;
+                let u = t.verify_with_aad(pk, aad, &NoValidation::dangerous_no_validation())?;
                 Ok((u.claims.0, u.footer))
             }
         }
